@@ -101,17 +101,11 @@ open CModel CModel.Melange
 
 /-- **C01, local proposals**: a vertex created by `CreateLeaf` names as parents only tips that passed
 `validateLeaf` during that very call. -/
-theorem createLeaf_parents_validated (b : Book) (trx : Trx) (o1 o2 : List Hash) (tip v : Vertex)
-    (h : (b.createLeaf trx o1 o2 tip).2 = .ok v) :
+theorem createLeafLocked_parents_validated (b : Book) (trx : Trx) (o1 o2 : List Hash) (tip v : Vertex)
+    (h : (b.createLeafLocked trx o1 o2 tip).2 = .ok v) :
     ∃ l r, ValidatedIn b l ∧ ValidatedIn b r ∧ v.left = l.hash ∧ v.right = r.hash ∧
       v.weight = calcNewWeight l.weight r.weight ∧ v.signer = b.self ∧ v.trx = trx := by
-  unfold createLeaf at h
-  split at h; · simp at h
-  split at h; · simp at h
-  split at h; · simp at h
-  split at h; · simp at h
-  split at h; · simp at h
-  split at h; · simp at h
+  unfold createLeafLocked at h
   obtain ⟨hvl, hvr⟩ := getValidLeaves_validated b o1
   simp only at h
   split at h
@@ -144,6 +138,19 @@ theorem createLeaf_parents_validated (b : Book) (trx : Trx) (o1 o2 : List Hash) 
         | none => exact hlv
         | some r' => exact hvr r' hl.2
       exact ⟨l, r.getD l, hlv, hrv, by rw [← heqv], by rw [← heqv], by rw [← heqv], by rw [← heqv], by rw [← heqv]⟩
+
+theorem createLeaf_parents_validated (b : Book) (trx : Trx) (o1 o2 : List Hash) (tip v : Vertex)
+    (h : (b.createLeaf trx o1 o2 tip).2 = .ok v) :
+    ∃ l r, ValidatedIn b l ∧ ValidatedIn b r ∧ v.left = l.hash ∧ v.right = r.hash ∧
+      v.weight = calcNewWeight l.weight r.weight ∧ v.signer = b.self ∧ v.trx = trx := by
+  unfold createLeaf at h
+  split at h; · simp at h
+  split at h; · simp at h
+  split at h; · simp at h
+  split at h; · simp at h
+  split at h; · simp at h
+  split at h; · simp at h
+  exact createLeafLocked_parents_validated b trx o1 o2 tip v h
 
 /-- `pv` was present in an intermediate book of the call, and if it was a tip there it passed
 `validateLeaf` (a parent that already has children was validated when it got its first child). -/
@@ -190,14 +197,10 @@ theorem checkParents_checked (b0 b : Book) (hs0 : Steps b0 b) (leaf : Vertex) (r
 
 /-- **C01, gossip and orphan retries**: a vertex admitted by `addLeafMemorized` had both declared
 parents present, and each parent that was still a tip passed `validateLeaf` in that call. -/
-theorem addLeafMemorized_parents_checked (b : Book) (leaf : Vertex) (rep : Nat) (hg : AddGuards b leaf)
-    (h : (b.addLeafMemorized leaf rep).2 = .ok ()) :
+theorem addLeafLocked_parents_checked (b : Book) (leaf : Vertex) (rep : Nat) (hg : AddGuards b leaf)
+    (h : (b.addLeafLocked leaf rep).2 = .ok ()) :
     ∃ l r, CheckedIn b l ∧ CheckedIn b r ∧ l.hash = leaf.left ∧ r.hash = leaf.right := by
-  unfold addLeafMemorized at h
-  split at h; · simp at h
-  split at h; · simp at h
-  split at h; · simp at h
-  split at h; · simp at h
+  unfold addLeafLocked at h
   split at h
   · simp at h
   · rename_i b1 validated heq
@@ -212,5 +215,15 @@ theorem addLeafMemorized_parents_checked (b : Book) (leaf : Vertex) (rep : Nat) 
     | [], hmap, _ => simp at hmap
     | [_], hmap, _ => simp at hmap
     | _ :: _ :: _ :: _, hmap, _ => simp at hmap
+
+theorem addLeafMemorized_parents_checked (b : Book) (leaf : Vertex) (rep : Nat) (hg : AddGuards b leaf)
+    (h : (b.addLeafMemorized leaf rep).2 = .ok ()) :
+    ∃ l r, CheckedIn b l ∧ CheckedIn b r ∧ l.hash = leaf.left ∧ r.hash = leaf.right := by
+  unfold addLeafMemorized at h
+  split at h; · simp at h
+  split at h; · simp at h
+  split at h; · simp at h
+  split at h; · simp at h
+  exact addLeafLocked_parents_checked b leaf rep hg h
 
 end CModel.Book
